@@ -281,6 +281,13 @@ func (cs *ContractSet) parseFile(pkgPath, filename string, lines []string, lineN
 						}
 						continue
 					}
+					if strings.HasPrefix(part, "any ") {
+						// register-level location: `any T.f` (field f of every T object) or `any []T` (elements of every []T)
+						c2.kind = "assigns-any"
+						c2.text = strings.TrimSpace(part[4:])
+						cur.assigns = append(cur.assigns, c2)
+						continue
+					}
 					// `x.f[*]` -> all elements
 					ptxt := strings.ReplaceAll(part, "[*]", "[all_]")
 					ex, err := parseSpecExpr(ptxt)
